@@ -3,7 +3,7 @@
 One generator with profiles (what each property emphasises), one comparison with projections (which
 observables each property compares)."""
 import os, random, re
-from .common import run_pair, CORPUS, hash_text, split_blocks
+from .common import THOROUGH_SCALE, run_pair, CORPUS, hash_text, split_blocks
 from .shrink import shrink
 
 DEFAULT_PROFILE = dict(
@@ -254,6 +254,11 @@ def split_runs(lines):
 
 def compare(impl, model, scen_lines, fields=ALL_FIELDS, noids=False, seq=True):
     """Returns None if the projections agree, else a short description of the first difference."""
+    if impl and impl[0].endswith("-timeout"):
+        return "the implementation did not finish this scenario (no output within the stall limit)"
+    if model and model[0].endswith("-timeout"):
+        return ("the Lean model did not finish this scenario within the stall limit: its exploration is far larger than the "
+                f"implementation's ({sum(1 for l in impl if l.startswith('E '))} evaluated states)")
     ri, rm = split_runs(impl), split_runs(model)
     if len(ri) != len(rm):
         return f"number of runs differs: impl {len(ri)} model {len(rm)}"
@@ -354,7 +359,7 @@ def run(v, tier, seed, prof=None, n_quick=300, n_thorough=5000, fields=ALL_FIELD
     scen = []
     for c in corpus:
         scen += corpus_scenarios(c)
-    n = n_quick if tier == "quick" else n_thorough
+    n = n_quick if tier == "quick" else n_thorough * THOROUGH_SCALE
     for i in range(n):
         scen.append((f"g{i}", list(cfg_lines) + gen_scenario(rng, prof)))
     if extra:
@@ -403,14 +408,14 @@ def report_disagreements(v, bad, name, fields=ALL_FIELDS, noids=False, seq=True,
     for nm, lines, diff in bad[:3]:
         def fails(ls):
             try:
-                i, m = run_pair("mc", [block("x", ls)], jobs=1)
+                i, m = run_pair("mc", [block("x", ls)], jobs=1, stall=20)
             except Exception:
                 return False
             if any("capped" in l for l in i.get("x", [])):
                 return False
             return compare(i.get("x", []), m.get("x", []), ls, fields, noids, seq) is not None
         small = shrink(lines, fails, keep=lambda l: l.startswith(("node", "run")), budget=120)
-        i, m = run_pair("mc", [block("x", small)], jobs=1)
+        i, m = run_pair("mc", [block("x", small)], jobs=1, stall=20)
         d = compare(i.get("x", []), m.get("x", []), small, fields, noids, seq) or diff
         concrete = judge_impl(small, i.get("x", [])) if judge_impl else None
         content = (f"# property {v.pid}: the real model checker deviates from the Lean model ({name})\n"
